@@ -3,6 +3,7 @@ from ..rules import hyp_rules as H
 from ..rules import chart_rules as C
 from ..rules import cache_rules as CA
 from ..rules import shape_rules as SH
+from ..rules import sibling_rules as SI
 from ..rules.common import u1, n1
 
 ENTRIES = [
@@ -25,6 +26,7 @@ def run(ctx):
     ctx.do(H.rule_h2)
     ctx.do(H.rule_h1)
     ctx.do(SH.rule_sh2)
+    ctx.do(SI.rule_pt1, [SI.HYP])
     ctx.do(u1, ENTRIES, min_functions=15)
     ctx.r.assume("round-trip equality, agreement of the closed-form metrics, "
                  "symmetry and the triangle inequality are numerical and not "
